@@ -54,9 +54,17 @@ func drawBuild(w *world) (buildOpts, string) {
 }
 
 // drawDoc draws a corpus document, possibly with its flat unit repeated or a nested specimen.
-func drawDoc(w *world, delims [3]string, maxRepeat int) (string, *doc) {
+// backtrackingWorlds are worlds whose grammar backtracks exponentially on invalid nested input
+// (recorded finding for C06); only profiles that run every call under a logical step cap feed
+// them deeply nested specimens.
+var backtrackingWorlds = map[string]bool{"ex-sql": true}
+
+func drawDoc(w *world, delims [3]string, maxRepeat int, capped ...bool) (string, *doc) {
 	d := &w.docs[simrt.Choose(len(w.docs))]
 	text := d.text
+	if d.nest != nil && backtrackingWorlds[w.name] && !(len(capped) > 0 && capped[0]) {
+		return instantiate(text, delims), d
+	}
 	switch {
 	case d.unitLen > 0 && simrt.Choose(2) == 1:
 		text = d.expand(1 + simrt.Choose(maxRepeat))
@@ -85,7 +93,7 @@ func runEntrypoints(rc *RunCtx) *Violation {
 	var v *Violation
 	simrt.RunInline(func() {
 		base := simrt.Depth()
-		simrt.OpBegin(0)
+		simrt.OpBegin(100000000) // no clause depends on it; it only keeps a pathological parse from stalling the batch
 		if simrt.Choose(5) == 1 {
 			v = entryLexDefs(rc)
 		} else {
@@ -187,7 +195,7 @@ func entryLexDefs(rc *RunCtx) *Violation {
 }
 
 func entryParser(rc *RunCtx) *Violation {
-	w := robustWorlds[simrt.Choose(len(robustWorlds))]
+	w := pickWorld()
 	o, variant := drawBuild(w)
 	delims := runDelims(rc.seed)
 	var p PH
